@@ -65,6 +65,39 @@ func ruleC20(c *Ctx, r *Report) {
 			}
 		}
 	}
+	// the raw command line carries the key when it is given by flag (both `--flag value`
+	// and `--flag=value`): every read of os.Args in the package is a further source
+	nArgs := 0
+	for _, f := range c.SortedFuncs() {
+		allInstrs(f, func(i ssa.Instruction) {
+			if ld, ok := i.(*ssa.UnOp); ok && ld.Op == token.MUL {
+				if g, ok := ld.X.(*ssa.Global); ok && g.Pkg != nil && g.Pkg.Pkg.Path() == "os" && g.Name() == "Args" {
+					onlyProgName := len(referrers(ld)) > 0
+					for _, u := range referrers(ld) {
+						ia, ok := u.(*ssa.IndexAddr)
+						if !ok {
+							if _, isDbg := u.(*ssa.DebugRef); isDbg {
+								continue
+							}
+							onlyProgName = false
+							continue
+						}
+						if n, ok := constInt(ia.Index); !ok || n != 0 {
+							onlyProgName = false
+						}
+					}
+					if onlyProgName {
+						return // os.Args[0]: the program name, not an argument
+					}
+					seeds = append(seeds, ld)
+					nArgs++
+				}
+			}
+		})
+	}
+	if nArgs > 0 {
+		seedNames = append(seedNames, fmt.Sprintf("%d read(s) of os.Args", nArgs))
+	}
 	r.Floor("C20-R1", 6, "uses of the secret: compare, copies, parameter bindings, Password store")
 	if len(seeds) < 2 {
 		r.Bad("C20-R1", "seeds", "-", fmt.Sprintf("expected the flag variable and the environment lookup as sources of the private key, found %v", seedNames))
